@@ -398,3 +398,18 @@ type WriteCloser struct{ S *Stream }
 
 func (w WriteCloser) Write(p []byte) (int, error) { return w.S.Write(p) }
 func (w WriteCloser) Close() error                { return w.S.CloseWrite() }
+
+// Duplex is one object for both directions of a connection, as a net.Conn is:
+// Close ends both (the peer sees the end of what was written, and its own
+// writes fail from then on).
+type Duplex struct {
+	In  *Stream // read from
+	Out *Stream // written to
+}
+
+func (d Duplex) Read(p []byte) (int, error)  { return d.In.Read(p) }
+func (d Duplex) Write(p []byte) (int, error) { return d.Out.Write(p) }
+func (d Duplex) Close() error {
+	d.In.CloseRead()
+	return d.Out.CloseWrite()
+}
